@@ -99,13 +99,32 @@ class Opener:
 
 
 class Rec(H.RequestAdapter):
+    """records the responses it has seen; like a list it has a length - zero when it is attached"""
+
     def __init__(self, tag, log):
         self.tag = tag
         self.log = log
+        self.seen = 0
+
+    def __len__(self):
+        return self.seen
 
     def process_response(self, rv):
         self.log.append(self.tag)
+        self.seen += 1
         return rv
+
+
+class CountingPrefix(H.RequestAdapterAddPathPrefix):
+    """a path-prefix adapter of the application that counts its requests (and has that count as its length)"""
+    used = 0
+
+    def __len__(self):
+        return self.used
+
+    def process_req_args(self, req_args):
+        self.used += 1
+        return super().process_req_args(req_args)
 
 
 class Assign(H.RequestAdapter):
@@ -265,17 +284,18 @@ def build(rng, log):
             auth_used = True
             kind = rng.choice(['b', 'c', 't', 'k'])
             # (some secrets are long generated ones)
-            secret = rng.choice(["p@ss é", "sec", "S3cr3t/" * 11, "k" * 57, "é" * 40])
+            # (... and some are numbers: a PIN from a configuration file read as int, as float, as bool)
+            secret = rng.choice(["p@ss é", "sec", "S3cr3t/" * 11, "k" * 57, "é" * 40, 1, True, 1.0, 1234, 1234.0])
             if kind == 'k':
                 tag = "k%d" % rng.randrange(10 ** 6)
                 conn = H.HttpConn(conn, adapters=[KeyInPath(tag, log)])
                 layers.append([('prefix', "/key/K"), ('rec', tag)])
             elif kind == 'b':
                 conn = H.BAuthConn(conn, "us:er", secret)
-                layers.append([('auth', "Basic", "us:er:" + secret)])
+                layers.append([('auth', "Basic", "us:er:" + str(secret))])
             elif kind == 'c':
                 conn = H.ClientAuthConn(conn, "nm", "cid", secret)
-                layers.append([('auth', "Basic", "cid:" + secret)])
+                layers.append([('auth', "Basic", "cid:" + str(secret))])
             else:
                 conn = H.TokenAuthConn(conn, "tok123")
                 layers.append([('auth', "Bearer", "tok123")])
@@ -562,7 +582,8 @@ def _run_history(ctx, rng, case):
             do(conn, layers, "orig after shared-list derivations")
         m = M(conn if isinstance(conn, H.HttpConn) else H.HttpConn(conn))
         ml = layers if isinstance(conn, H.HttpConn) else layers + [[]]
-        a1, a2 = H.RequestAdapterAddPathPrefix("/c1"), H.RequestAdapterAddPathPrefix("/c2")
+        a1, a2 = (CountingPrefix if rng.random() < 0.5 else H.RequestAdapterAddPathPrefix)("/c1"), \
+            H.RequestAdapterAddPathPrefix("/c2")
         how = rng.choice(['none', 'one', 'list', 'list'])
         steps.append(["clone", how])
         clone_arg = None if how == 'none' else a1 if how == 'one' else [a1, a2]
